@@ -312,21 +312,28 @@ class Exact:
 # the real model
 
 def make_comp(case):
+    """One explicit component: design variables -> objective and constraint outputs.  The data a
+    parameter study may change between runs of the same Problem are ordinary (non-design) inputs:
+    `p_c` (linear term of the objective), `A_<out>` and `d_<out>` (rows and constants of every
+    output); the outputs stay affine / cubic-of-affine in the design variables."""
     import openmdao.api as om
 
     class QPComp(om.ExplicitComponent):
         def setup(self):
+            n = case['n']
             for dv in case['dvs']:
                 self.add_input(dv['name'], val=np.zeros(dv['size']), units=dv['units'][0])
+            self.add_input('p_c', val=np.array([float(unrat(v)) for v in case['c']]))
             self.add_output('f', val=0.0, units=case['obj']['units'][0])
             for o in case['outs']:
-                self.add_output(o['name'], val=np.zeros(len(o['rows'])), units=o['units'][0])
-            self.declare_partials('*', '*')
+                m = len(o['rows'])
+                self.add_input('A_' + o['name'], val=np.array(o['rows'], dtype=float).reshape(m, n))
+                self.add_input('d_' + o['name'], val=np.array([float(unrat(v)) for v in o['d']]))
+                self.add_output(o['name'], val=np.zeros(m), units=o['units'][0])
+            dvn = [dv['name'] for dv in case['dvs']]
+            self.declare_partials(['f'] + [o['name'] for o in case['outs']], dvn)
             self.Q = np.array(case['Q'], dtype=float)
-            self.c = np.array([float(unrat(v)) for v in case['c']])
-            self.A = {o['name']: np.array(o['rows'], dtype=float).reshape(len(o['rows']), case['n'])
-                      for o in case['outs']}
-            self.d = {o['name']: np.array([float(unrat(v)) for v in o['d']]) for o in case['outs']}
+            self.names = [o['name'] for o in case['outs']]
             self.cub = {o['name']: np.array([k == 'cub' for k in o['phi']]) for o in case['outs']}
 
         def _x(self, inputs):
@@ -334,25 +341,55 @@ def make_comp(case):
 
         def compute(self, inputs, outputs):
             x = self._x(inputs)
-            outputs['f'] = 0.5 * x @ self.Q @ x + self.c @ x
-            for name, A in self.A.items():
-                t = A @ x + self.d[name]
+            outputs['f'] = 0.5 * x @ self.Q @ x + inputs['p_c'] @ x
+            for name in self.names:
+                t = inputs['A_' + name] @ x + inputs['d_' + name]
                 outputs[name] = np.where(self.cub[name], t + t ** 3 / 64.0, t)
 
         def compute_partials(self, inputs, partials):
             x = self._x(inputs)
-            gf = self.Q @ x + self.c
+            gf = self.Q @ x + inputs['p_c']
             i = 0
             for dv in case['dvs']:
                 sl = slice(i, i + dv['size'])
                 partials['f', dv['name']] = gf[sl].reshape(1, -1)
-                for name, A in self.A.items():
-                    t = A @ x + self.d[name]
+                for name in self.names:
+                    A = inputs['A_' + name]
+                    t = A @ x + inputs['d_' + name]
                     dp = np.where(self.cub[name], 1.0 + 3.0 * t ** 2 / 64.0, 1.0)
                     partials[name, dv['name']] = dp[:, None] * A[:, sl]
                 i += dv['size']
 
     return QPComp()
+
+
+def stage_cases(case):
+    """A case with `stages` is a parameter study on one Problem: the base data, then for every stage
+    new rows / constants / linear term / start design (bounds and scaling are fixed at setup).
+    Every stage is a complete case of its own (own planted optimum)."""
+    out = [case]
+    for st in case.get('stages', []):
+        ck = dict(case)
+        ck['outs'] = [dict(o, rows=st['rows'][o['name']], d=st['d'][o['name']]) for o in case['outs']]
+        for key in ('c', 'x0', 'cert', 'probes'):
+            ck[key] = st[key]
+        ck.pop('stages', None)
+        out.append(ck)
+    return out
+
+
+def load_stage(p, ck):
+    """what a user does between two runs of a parameter study: set_val on non-design inputs and on
+    the start design"""
+    n = ck['n']
+    p.set_val('p_c', np.array([float(unrat(v)) for v in ck['c']]))
+    for o in ck['outs']:
+        p.set_val('A_' + o['name'], np.array(o['rows'], dtype=float).reshape(len(o['rows']), n))
+        p.set_val('d_' + o['name'], np.array([float(unrat(v)) for v in o['d']]))
+    i = 0
+    for dv in ck['dvs']:
+        p.set_val(dv['name'], np.array([float(unrat(v)) for v in ck['x0'][i:i + dv['size']]]))
+        i += dv['size']
 
 
 def fl(v):
@@ -788,13 +825,33 @@ def fd_consistent(p, cap, xd):
 
 
 def run_one(case, scal, dry=False):
-    res = {}
-    grad_opt = case['opt'] != 'COBYLA'
+    return run_scaling(case, scal, dry)[0]
+
+
+def run_scaling(case, scal, dry=False):
+    """One Problem / one driver under driver scaling `scal`, run once per stage of the case."""
+    out = []
+    p = None
     with warnings.catch_warnings():
         warnings.simplefilter('ignore')
+        try:
+            p = build_problem(case, scal)
+        except Exception as e:
+            err = {'error': type(e).__name__, 'msg': str(e)[:160], 'called': False}
+            return [dict(err) for _ in stage_cases(case)]
+        for k, ck in enumerate(stage_cases(case)):
+            out.append(run_stage(p, ck, scal, dry, k))
+    return out
+
+
+def run_stage(p, case, scal, dry, k):
+    res = {}
+    grad_opt = case['opt'] != 'COBYLA'
+    if True:
         with Capture(dry=dry) as cap:
             try:
-                p = build_problem(case, scal)
+                if k > 0:
+                    load_stage(p, case)
                 cap.driver = p.driver
                 with contextlib.redirect_stdout(io.StringIO()):
                     p.run_driver()
@@ -1022,7 +1079,7 @@ def gen_case(rng, opt=None, force=None):
                     break
             rows.append(row)
             ds.append(rng.choice(DY))
-            phis.append('cub' if rng.random() < 0.3 else 'lin')
+            phis.append('cub' if rng.random() < force.get('p_cubic', 0.3) else 'lin')
         oname = 'g%d' % (oi + 1)
         o = {'name': oname, 'rows': rows, 'd': rats(ds), 'phi': phis, 'units': [units[0], units[1]]}
         outs.append(o)
@@ -1048,9 +1105,9 @@ def gen_case(rng, opt=None, force=None):
             grads = [[dphi(phis[i], t) * F(a) for a in rows[i]] for i, t in zip(grp, ts)]
             all_lin = all(phis[i] == 'lin' for i in grp)
             con = {'out': oname, 'alias': alias, 'indices': indices, 'lower': None, 'upper': None,
-                   'equals': None, 'linear': bool(all_lin and rng.random() < 0.5)}
+                   'equals': None, 'linear': bool(all_lin and rng.random() < force.get('p_linear', 0.5))}
             key = len(cons)
-            if eq_ok and rng.random() < 0.2:
+            if eq_ok and rng.random() < force.get('p_eq', 0.2):
                 mode = rng.choice(['scalar', 'array']) if (k > 1 and len(set(gv)) == 1) else (
                     'array' if k > 1 else rng.choice(['scalar', 'array']))
                 for j in range(k):
@@ -1374,13 +1431,24 @@ class C21(Property):
 
     # -- generator ----------------------------------------------------------------------------------
     def cases(self, rng, tier):
-        n = 48 if tier == 'quick' else 4000
+        n = 40 if tier == 'quick' else 3000
+        # head of the stream: parameter studies (one Problem run 2-3 times with changed non-design
+        # inputs) whose changed rows belong to active constraints declared linear=True
+        head = ['SLSQP', 'trust-constr', 'SLSQP', 'trust-constr', 'SLSQP', 'COBYLA']
         for k in range(n):
+            if k < len(head):
+                case = gen_case(rng, head[k], force={'p_cubic': 0.0, 'p_linear': 1.0, 'p_eq': 0.0,
+                                                     'p_active': 0.8})
+                add_stages(rng, case, rng.choice([1, 2]))
+                yield case
+                continue
             r = rng.random()
             opt = 'SLSQP' if r < 0.5 else ('COBYLA' if r < 0.75 else 'trust-constr')
             case = gen_case(rng, opt)
             s = rng.random()
-            if s < 0.06:
+            if s > 0.78:
+                add_stages(rng, case, rng.choice([1, 1, 2]))
+            elif s < 0.06:
                 mutate_negative(rng, case)
             elif s < 0.10:
                 mutate_infeasible(rng, case)
@@ -1390,7 +1458,19 @@ class C21(Property):
 
     # -- real code ------------------------------------------------------------------------------------
     def run_impl(self, case):
-        return {'runs': [run_one(case, sc) for sc in case['scalings']]}
+        # one Problem per driver scaling, run once per stage; flat list, scaling-major
+        return {'runs': [r for sc in case['scalings'] for r in run_scaling(case, sc)]}
+
+    def instances(self, case, impl):
+        """(scaling index, stage index, scaling, the stage as a complete case, its run)"""
+        cks = stage_cases(case)
+        out = []
+        i = 0
+        for si, sc in enumerate(case['scalings']):
+            for k, ck in enumerate(cks):
+                out.append((si, k, sc, ck, impl['runs'][i]))
+                i += 1
+        return out
 
     # -- direct oracle ----------------------------------------------------------------------------------
     def run_checks(self, case, scal, r):
@@ -1506,25 +1586,19 @@ class C21(Property):
                                     '0' if j == 0 else 'pos')
 
     def oracle(self, case, impl):
-        runs = impl['runs']
+        # every run of every Problem is judged on its own data (clause 4, independence of the driver
+        # scaling, is clause 3 holding for both scalings)
         allf = []
-        for si, (sc, r) in enumerate(zip(case['scalings'], runs)):
-            for f in self.run_checks(case, sc, r):
+        for si, k, sc, ck, r in self.instances(case, impl):
+            for f in self.run_checks(ck, sc, r):
                 f['scaling'] = si
+                f['stage'] = k
                 f['pure'] = self.pure(r)
                 allf.append(f)
-        if not allf and case['opt'] != 'COBYLA' and all(r.get('success') for r in runs) and \
-                all(self.optimal(case, r) for r in runs):
-            a = [float(unrat(v)) for v in runs[0]['x_model']]
-            b = [float(unrat(v)) for v in runs[1]['x_model']]
-            d = max(abs(p - q) / max(1.0, abs(q)) for p, q in zip(a, b))
-            if d > 2 * TOL_OPTIMUM:
-                allf.append({'clause': 'scaling', 'what': 'two driver scalings give different designs',
-                             'distance': d, 'pure': True})
         if not allf:
             return None
-        order = {'feasible': 0, 'at_x': 1, 'optimum': 2, 'scaling': 3}
-        allf.sort(key=lambda f: order[f['clause']])
+        order = {'feasible': 0, 'at_x': 1, 'optimum': 2}
+        allf.sort(key=lambda f: (order[f['clause']], f['stage']))
         out = dict(allf[0])
         out['all'] = allf[1:4]
         return out
@@ -1534,14 +1608,20 @@ class C21(Property):
         return {'style': 'old' if case['opt'] in OLD_STYLE else 'new', 'optimizer': case['opt'],
                 'clause': failure.get('clause'), 'pure': failure.get('pure'),
                 'cause': failure.get('cause'), 'pattern': failure.get('pattern'),
-                'side': failure.get('side'), 'negative_scaler': neg}
+                'side': failure.get('side'), 'negative_scaler': neg,
+                'run': 'first' if not failure.get('stage') else 'rerun'}
 
     def nontrivial(self, case, impl):
         return any(r.get('success') for r in impl['runs'])
 
     def bucket(self, case, impl):
-        b = ['opt=' + case['opt'], 'n=%d' % case['n']]
-        for r in impl['runs']:
+        b = ['opt=' + case['opt'], 'n=%d' % case['n'], 'runs-per-problem=%d' % len(stage_cases(case))]
+        for si, k, sc_, ck_, r in self.instances(case, impl):
+            if k > 0:
+                b.append('rerun:%s:%s' % (case['opt'], 'error' if 'error' in r else
+                                          ('success' if r['success'] else 'no-success')))
+                if any(c_['linear'] for c_ in case['cons']):
+                    b.append('rerun:with-linear-constraint')
             if 'error' in r:
                 b.append('run:error:%s' % r['error'])
             else:
@@ -1551,13 +1631,12 @@ class C21(Property):
                     b.append('scipy-success-with-own-constraint-violated' +
                              ('' if not self.pure(r) else ':pure'))
                 if r.get('success'):
-                    sc = case['scalings'][impl['runs'].index(r)]
-                    fails = self.run_checks(case, sc, r)
+                    fails = self.run_checks(ck_, sc_, r)
                     if fails:
                         b.append('success:%s:clause-%s-fails' % (case['opt'], fails[0]['clause']))
-                    elif not case.get('cert'):
+                    elif not ck_.get('cert'):
                         b.append('success:%s:feasible(no certificate)' % case['opt'])
-                    elif self.optimal(case, r):
+                    elif self.optimal(ck_, r):
                         b.append('success:%s:feasible+optimal' % case['opt'])
                     elif case['opt'] == 'COBYLA':
                         b.append('success:COBYLA:feasible,optimality-not-demanded')
@@ -1607,8 +1686,8 @@ class C21(Property):
         v = self.variant()
         style = 'old' if case['opt'] in OLD_STYLE else 'new'
         reqs = []
-        ex = Exact(case)
-        for sc, r in zip(case['scalings'], impl['runs']):
+        for si_, k_, sc, case, r in self.instances(case, impl):
+            ex = Exact(case)
             probes = self.probes_exact(case, sc, r)
             views = [exact_driver_view(case, sc, q) for q in probes]
             x0d = [F(float(t)) for t in scale_x(case, sc, [unrat(e) for e in case['x0']])]
@@ -1641,11 +1720,11 @@ class C21(Property):
     def compare(self, case, impl, answers):
         ncon, ndv = len(case['cons']), len(case['dvs'])
         per = ncon + ndv + 1
-        for si, (sc, r) in enumerate(zip(case['scalings'], impl['runs'])):
-            ans = answers[si * per:(si + 1) * per]
-            d = self.compare_run(case, sc, r, ans[:ncon], ans[ncon:ncon + ndv], ans[-1])
+        for q, (si, k, sc, ck, r) in enumerate(self.instances(case, impl)):
+            ans = answers[q * per:(q + 1) * per]
+            d = self.compare_run(ck, sc, r, ans[:ncon], ans[ncon:ncon + ndv], ans[-1])
             if d is not None:
-                return 'scaling %d: %s' % (si, d)
+                return 'scaling %d, run %d of the problem: %s' % (si, k + 1, d)
         return None
 
     def compare_run(self, case, sc, r, cons_a, dvs_a, trace_a):
@@ -1770,6 +1849,121 @@ class C21(Property):
                     return 'Jacobian row at probe %d: implementation %s, model %s' % (
                         pi, [float(t) for t in zr], [float(t) for t in row])
         return None
+
+
+def feasible_start(rng, ck):
+    """a start design strictly inside all bounds and inequality constraints if one is found near the
+    optimum (scipy's `keep_feasible` LinearConstraint / Bounds reject an infeasible x0 and stall on
+    the boundary), else the optimum itself"""
+    ex = Exact(ck)
+    xs = [unrat(v) for v in ck['cert']['x']]
+    sides = ex.side_constraints()
+
+    def slack(x):
+        # smallest slack over the inequality conditions (negative: infeasible); equalities must hold
+        m = None
+        for sc in sides:
+            v, _ = ex.value_grad(sc, x)
+            if sc[0] == 'eq':
+                if v != sc[4]:
+                    return F(-1)
+                continue
+            sl = (v - sc[4]) if sc[0] in ('lo', 'xlo') else (sc[4] - v)
+            m = sl if m is None else min(m, sl)
+        return F(1) if m is None else m
+    best, bests = xs, F(0)
+    for scale in (F(1, 2), F(1, 4), F(1, 8), F(1, 32)):
+        for _ in range(80):
+            x = [v + scale * rng.randint(-4, 4) for v in xs]
+            sl = slack(x)
+            if sl > bests:
+                best, bests = x, sl
+        if bests > 0:
+            break
+    return best
+
+
+def add_stages(rng, case, nst):
+    """Turn a planted case into a parameter study: `nst` further runs of the same Problem with new
+    rows / constants / linear term (set_val on non-design inputs).  Bounds are fixed at setup, so
+    every stage keeps the value t_i* of every affine form at its own optimum (hence the same active
+    set and slacks) and the design components that carry a bound; rows, the free components of the
+    optimum and therefore all gradients change."""
+    ex = Exact(case)
+    n = case['n']
+    Q = ex.Q
+    xs = [unrat(v) for v in case['cert']['x']]
+    bounded = set()
+    pos_of = {}
+    for dv, a, b in ex.dv_slices():
+        lo = bcast(dv['lower'], dv['size'])
+        hi = bcast(dv['upper'], dv['size'])
+        for k in range(dv['size']):
+            pos_of[(dv['name'], k)] = a + k
+            if lo[k] is not None or hi[k] is not None:
+                bounded.add(a + k)
+    tstar = {o['name']: [sum(F(a) * xi for a, xi in zip(row, xs)) + unrat(d)
+                         for row, d in zip(o['rows'], o['d'])] for o in case['outs']}
+    stages = []
+    for _ in range(nst):
+        xn = [xs[i] if i in bounded else rng.choice(DY) for i in range(n)]
+        rows, ds = {}, {}
+        for o in case['outs']:
+            nr, nd = [], []
+            for i, row in enumerate(o['rows']):
+                r = list(row)
+                if rng.random() < 0.8:
+                    while True:
+                        r = [rng.choice([-3, -2, -1, 0, 0, 1, 2, 3]) for _ in range(n)]
+                        if any(r):
+                            break
+                nr.append(r)
+                nd.append(tstar[o['name']][i] - sum(F(a) * xi for a, xi in zip(r, xn)))
+            rows[o['name']] = nr
+            ds[o['name']] = rats(nd)
+        gt = [F(0)] * n
+        for kind, key, lam in case['cert']['mult']:
+            lam = unrat(lam)
+            sign = -1 if kind in ('lo', 'xlo') else 1
+            if kind in ('xlo', 'xhi'):
+                g = [F(0)] * n
+                g[pos_of[(key[0], key[1])]] = F(1)
+            else:
+                con = case['cons'][key[0]]
+                o = ex.outs[con['out']]
+                i = ex.con_elems(con)[key[1]][0]
+                g = [dphi(o['phi'][i], tstar[o['name']][i]) * F(a) for a in rows[o['name']][i]]
+            for q in range(n):
+                gt[q] += sign * lam * g[q]
+        c = [-sum(Q[i][j] * xn[j] for j in range(n)) - gt[i] for i in range(n)]
+        st = {'rows': rows, 'd': ds, 'c': rats(c),
+              'cert': {'x': rats(xn), 'mult': case['cert']['mult']},
+              'probes': [rats([rng.choice(DY) for _ in range(n)]) for _ in range(2)]}
+        x0 = []
+        for dv, a, b in ex.dv_slices():
+            u = ufactor(dv['units'])
+            lo = bcast(dv['lower'], dv['size'])
+            hi = bcast(dv['upper'], dv['size'])
+            for k in range(dv['size']):
+                v = rng.choice(DY)
+                if lo[k] is not None and v < lo[k] / u:
+                    v = lo[k] / u
+                if hi[k] is not None and v > hi[k] / u:
+                    v = hi[k] / u
+                x0.append(v)
+        st['x0'] = rats(x0)
+        stages.append(st)
+    case['stages'] = stages
+    if case['opt'] == 'trust-constr':
+        case.setdefault('maxiter', 1000)      # tol 1e-9 needs more than the default budget
+    if case['opt'] == 'trust-constr' and any(c_['linear'] for c_ in case['cons']):
+        # keep_feasible=True on the LinearConstraint: start inside
+        cks = stage_cases(case)
+        case['x0'] = rats(feasible_start(rng, cks[0]))
+        for st, ck in zip(stages, cks[1:]):
+            st['x0'] = rats(feasible_start(rng, ck))
+    for ck in stage_cases(case)[1:]:
+        Exact(ck).check_certificate()
 
 
 def mutate_negative(rng, case):
